@@ -262,6 +262,18 @@ func (l *Link) NSentInt() int {
 	return len(l.Sent)
 }
 
+// Drain discards everything queued for the reader (what an idle shell would have consumed).
+func (l *Link) Drain() int {
+	l.W.mu.Lock()
+	defer l.W.mu.Unlock()
+	n := 0
+	for _, s := range l.segs {
+		n += len(s.data)
+	}
+	l.segs = nil
+	return n
+}
+
 // Pending reports bytes queued but not yet read.
 func (l *Link) Pending() int {
 	l.W.mu.Lock()
@@ -290,6 +302,7 @@ type Listener struct {
 	closed chan struct{}
 	isDone bool
 	Accepted int
+	Owner    *Proc
 }
 
 // ListenFail makes the next NetListen calls fail (tunnel unavailable).
@@ -308,7 +321,7 @@ func NetListen(network, addr string) (net.Listener, error) {
 		return nil, errListen
 	}
 	w.nextPort++
-	l := &Listener{w: w, port: w.nextPort, q: make(chan *Conn, 64), closed: make(chan struct{})}
+	l := &Listener{w: w, port: w.nextPort, q: make(chan *Conn, 64), closed: make(chan struct{}), Owner: p}
 	w.NetPorts[l.port] = l
 	return l, nil
 }
@@ -388,11 +401,17 @@ func (c *Conn) SetWriteDeadline(t time.Time) error { return nil }
 // Dial connects to a simulated port; it returns the client side or nil when nobody listens.
 // cfg (optional) is applied to both links of the connection.
 func (w *World) Dial(port int, name string, cfg func(l *Link)) *Conn {
+	return w.DialHost(nil, port, name, cfg)
+}
+
+// DialHost is Dial restricted to a listener owned by process host (each simulated process is its
+// own host: a port number only means something on the machine the connector reaches).
+func (w *World) DialHost(host *Proc, port int, name string, cfg func(l *Link)) *Conn {
 	Yield("dial")
 	w.mu.Lock()
 	ln := w.NetPorts[port]
 	w.mu.Unlock()
-	if ln == nil {
+	if ln == nil || (host != nil && ln.Owner != host) {
 		return nil
 	}
 	a2b := w.NewLink(name + ">")
